@@ -192,6 +192,39 @@ def phaseSumSparse (smulti : Fin ns → Fin np → Nat) (sph : Fin ns → Fin np
     (k : Fin ns) (i : Fin np) : Cx α :=
   sumFin (smulti k i) fun l => sph k i l.1
 
+/-! ### invariance of the shortest-vector table under a space-group operation (C03, point-group clause)
+
+For an operation that maps the supercell onto itself: `pi` permutes the primitive atoms (sublattices),
+`kap i` is the permutation of the supercell atoms "apply the operation, then the lattice translation that brings the
+image of primitive atom `i` back to primitive atom `pi i`", `sig` maps the index of every stored shortest vector to
+the index of its image.  `svecsInvariantOk` is the executable certificate that these maps send the table onto itself:
+the stored vectors of pair `(k, i)` go bijectively to the stored vectors of pair `(kap i k, pi i)`. -/
+
+structure SymMaps (np ns nsv : Nat) where
+  pi   : Fin np → Fin np
+  pinv : Fin np → Fin np
+  kap  : Fin np → Fin ns → Fin ns
+  kinv : Fin np → Fin ns → Fin ns
+  sig  : Fin nsv → Fin nsv
+  sinv : Fin nsv → Fin nsv
+
+/-- stored-vector index `x` lies in the address range `[adrs, adrs + mult)` of the pair `(k, i)` -/
+def inRange (T : DTables np nf ns nsv) (k : Fin ns) (i : Fin np) (x : Fin nsv) : Bool :=
+  decide (T.adrs k i ≤ x.1) && decide (x.1 < T.adrs k i + T.mult k i)
+
+def svecsInvariantOk (T : DTables np nf ns nsv) (M : SymMaps np ns nsv) : Bool :=
+  (List.finRange np).all (fun i => M.pinv (M.pi i) == i && M.pi (M.pinv i) == i) &&
+  (List.finRange np).all (fun i => (List.finRange ns).all fun k =>
+      M.kinv i (M.kap i k) == k && M.kap i (M.kinv i k) == k) &&
+  (List.finRange nsv).all (fun x => M.sinv (M.sig x) == x && M.sig (M.sinv x) == x) &&
+  (List.finRange np).all (fun i => (List.finRange ns).all fun k =>
+      T.mult (M.kap i k) (M.pi i) == T.mult k i) &&
+  (List.finRange np).all (fun i => (List.finRange ns).all fun k => (List.finRange nsv).all fun x =>
+      (!inRange T k i x || inRange T (M.kap i k) (M.pi i) (M.sig x)) &&
+      (!inRange T (M.kap i k) (M.pi i) x || inRange T k i (M.sinv x))) &&
+  (List.finRange np).all (fun i => (List.finRange ns).all fun k => (List.finRange np).all fun j =>
+      decide (T.s2p (M.kap i k) = T.p2s (M.pi j)) == decide (T.s2p k = T.p2s j))
+
 /-! ### staged evaluators used by the driver (proved equal to the model in `Props/C02`) -/
 
 def dynmatCF (T : DTables np nf ns nsv) (ph : Fin nsv → Cx α) (mm : Fin np → Fin np → α)
